@@ -1,4 +1,6 @@
-// C03 correspondence harness (injected into package pkg/trie/inmemory by `go test -overlay`).
+// C03 correspondence harness (injected into package dot/state by `go test -overlay`;
+// the fork histories use the exported API of pkg/trie/inmemory, the `state` histories go through
+// InmemoryStorageState.StoreTrie / TrieState).
 //
 // One case = one fork history over copy-on-write snapshots of an in-memory trie.
 // Handle 0 is NewEmptyTrie(); every `s` step appends a new handle.
@@ -22,7 +24,20 @@
 //           else <root hash hex>#<k>:<v>,<k>:<v>,...   (entries sorted by key; "." when empty)
 //   after a panic (in the step or while observing) the history stops.
 // Hash() then Entries() are called on EVERY live handle after every step, in index order.
-package inmemory
+//
+// ---- second kind of input ----
+// the copy-on-write snapshots as the node uses them — InmemoryStorageState.StoreTrie caches a trie
+// under its root (Tries.softSet: the first trie stored under a root stays) and writes its dirty
+// nodes; InmemoryStorageState.TrieState(root) takes a Snapshot of the cached trie and panics with
+// "trie does not have expected root" when the cached trie no longer hashes to that root.
+//
+// input: `state` then steps separated by one space; handle 0 is a TrieState over NewEmptyTrie()
+//   p<k>:<key>:<value>  d<k>:<key>  c<k>:<prefix>  v<k>:<0|1>     on TrieState k (no open transaction)
+//   S<k>                StoreTrie(TrieState k, nil)
+//   T<k>                TrieState(&root) with the root under which k was last stored -> new handle
+// observed: as in harness_test.go (probe, init record, one record per step; Root and TrieEntries
+// of EVERY live TrieState after every step).
+package state
 
 import (
 	"fmt"
@@ -32,7 +47,10 @@ import (
 
 	"github.com/ChainSafe/gossamer/internal/database"
 	vu "github.com/ChainSafe/gossamer/internal/verifutil"
+	"github.com/ChainSafe/gossamer/lib/common"
+	"github.com/ChainSafe/gossamer/lib/runtime/storage"
 	"github.com/ChainSafe/gossamer/pkg/trie"
+	inmemory_trie "github.com/ChainSafe/gossamer/pkg/trie/inmemory"
 )
 
 // ---- a throw-away database for WriteDirty
@@ -49,7 +67,7 @@ type c03DB struct{ m map[string][]byte }
 
 func (d *c03DB) NewBatch() database.Batch { return &c03Batch{m: d.m} }
 
-func c03Observe(t *InMemoryTrie) (obs string, panicked bool) {
+func c03Observe(t *inmemory_trie.InMemoryTrie) (obs string, panicked bool) {
 	defer func() {
 		if r := recover(); r != nil {
 			obs, panicked = "panic", true
@@ -82,7 +100,7 @@ func c03Observe(t *InMemoryTrie) (obs string, panicked bool) {
 	return sb.String(), false
 }
 
-func c03Step(hs *[]*InMemoryTrie, tok string) (res string) {
+func c03Step(hs *[]*inmemory_trie.InMemoryTrie, tok string) (res string) {
 	defer func() {
 		if r := recover(); r != nil {
 			res = "panic"
@@ -141,14 +159,14 @@ func c03Step(hs *[]*InMemoryTrie, tok string) (res string) {
 //   second digit 1: Get(0x01) on {0x012345, 0x012367, 0x0456} (a nested branch) returns nil
 func c03Probe() string {
 	d, g := "0", "0"
-	t := NewEmptyTrie()
+	t := inmemory_trie.NewEmptyTrie()
 	_ = t.Put([]byte{0x01, 0x23}, []byte{1})
 	_ = t.Put([]byte{0x04, 0x56}, []byte{2})
 	_ = t.Delete([]byte{0x01})
 	if t.Get([]byte{0x01, 0x23}) != nil {
 		d = "1"
 	}
-	u := NewEmptyTrie()
+	u := inmemory_trie.NewEmptyTrie()
 	_ = u.Put([]byte{0x01, 0x23, 0x45}, []byte{1})
 	_ = u.Put([]byte{0x01, 0x23, 0x67}, []byte{2})
 	_ = u.Put([]byte{0x04, 0x56}, []byte{3})
@@ -165,7 +183,7 @@ func c03Run(in string) string {
 	if len(toks) > 0 && toks[0] == "U" {
 		toks = toks[1:]
 	}
-	hs := []*InMemoryTrie{NewEmptyTrie()}
+	hs := []*inmemory_trie.InMemoryTrie{inmemory_trie.NewEmptyTrie()}
 	var prev []string
 	var out strings.Builder
 	out.WriteString(c03Probe() + " ")
@@ -452,7 +470,320 @@ func c03Gen(r *vu.RNG, n int, emit func(string)) {
 	}
 }
 
+
+var c03sDB database.Database
+
+func c03sProbe() string {
+	d, g := "0", "0"
+	t := inmemory_trie.NewEmptyTrie()
+	_ = t.Put([]byte{0x01, 0x23}, []byte{1})
+	_ = t.Put([]byte{0x04, 0x56}, []byte{2})
+	_ = t.Delete([]byte{0x01})
+	if t.Get([]byte{0x01, 0x23}) != nil {
+		d = "1"
+	}
+	u := inmemory_trie.NewEmptyTrie()
+	_ = u.Put([]byte{0x01, 0x23, 0x45}, []byte{1})
+	_ = u.Put([]byte{0x01, 0x23, 0x67}, []byte{2})
+	_ = u.Put([]byte{0x04, 0x56}, []byte{3})
+	_ = u.Put([]byte{0x01, 0x23}, []byte{4})
+	if u.Get([]byte{0x01}) == nil {
+		g = "1"
+	}
+	return "probe:" + d + g
+}
+
+func c03sObserve(ts *storage.TrieState) (obs string, panicked bool) {
+	defer func() {
+		if r := recover(); r != nil {
+			obs, panicked = "panic", true
+		}
+	}()
+	tr := ts.Trie().(*inmemory_trie.InMemoryTrie)
+	h, err := tr.Hash()
+	if err != nil {
+		return "err", false
+	}
+	ent := tr.Entries()
+	keys := make([]string, 0, len(ent))
+	for k := range ent {
+		keys = append(keys, k)
+	}
+	sort.Strings(keys)
+	var sb strings.Builder
+	sb.WriteString(vu.Hex(h[:]))
+	sb.WriteByte('#')
+	if len(keys) == 0 {
+		sb.WriteByte('.')
+	}
+	for i, k := range keys {
+		if i > 0 {
+			sb.WriteByte(',')
+		}
+		sb.WriteString(vu.Hex([]byte(k)))
+		sb.WriteByte(':')
+		sb.WriteString(vu.Hex(ent[k]))
+	}
+	return sb.String(), false
+}
+
+type c03sCase struct {
+	s      *InmemoryStorageState
+	hs     []*storage.TrieState
+	stored map[int]common.Hash
+}
+
+func (c *c03sCase) step(tok string) (res string) {
+	defer func() {
+		if r := recover(); r != nil {
+			res = "panic"
+		}
+	}()
+	f := strings.Split(tok[1:], ":")
+	k := int(vu.UnX(f[0]))
+	if k >= len(c.hs) {
+		return "bad"
+	}
+	ts := c.hs[k]
+	switch tok[0] {
+	case 'p':
+		if err := ts.Put(vu.UnHex(f[1]), vu.UnHex(f[2])); err != nil {
+			return "err"
+		}
+	case 'd':
+		if err := ts.Delete(vu.UnHex(f[1])); err != nil {
+			return "err"
+		}
+	case 'c':
+		if err := ts.ClearPrefix(vu.UnHex(f[1])); err != nil {
+			return "err"
+		}
+	case 'v':
+		if f[1] == "1" {
+			ts.SetVersion(trie.V1)
+		} else {
+			ts.SetVersion(trie.V0)
+		}
+	case 'S':
+		root := ts.Trie().MustHash()
+		if err := c.s.StoreTrie(ts, nil); err != nil {
+			return "err"
+		}
+		c.stored[k] = root
+	case 'T':
+		root, ok := c.stored[k]
+		if !ok {
+			return "bad"
+		}
+		nts, err := c.s.TrieState(&root)
+		if err != nil {
+			return "err"
+		}
+		c.hs = append(c.hs, nts)
+	default:
+		return "bad"
+	}
+	return "ok"
+}
+
+func c03sRun(in string) string {
+	toks := strings.Split(in, " ")
+	if len(toks) == 0 || toks[0] != "state" {
+		return "bad"
+	}
+	toks = toks[1:]
+	s, err := NewStorageState(c03sDB, nil, NewTries())
+	if err != nil {
+		return "err"
+	}
+	c := &c03sCase{s: s, hs: []*storage.TrieState{storage.NewTrieState(inmemory_trie.NewEmptyTrie())},
+		stored: map[int]common.Hash{}}
+	var prev []string
+	var out strings.Builder
+	out.WriteString(c03sProbe() + " ")
+	record := func(res string) bool {
+		out.WriteString(res)
+		for j, t := range c.hs {
+			o, p := c03sObserve(t)
+			if p {
+				out.WriteString("/panic")
+				return false
+			}
+			if j < len(prev) && prev[j] == o {
+				out.WriteString("/=")
+			} else {
+				out.WriteString("/" + o)
+			}
+			if j < len(prev) {
+				prev[j] = o
+			} else {
+				prev = append(prev, o)
+			}
+		}
+		return true
+	}
+	if !record("init") {
+		return out.String()
+	}
+	for _, tok := range toks {
+		if tok == "" {
+			continue
+		}
+		res := c.step(tok)
+		out.WriteByte(' ')
+		if res != "ok" {
+			out.WriteString(res)
+			break
+		}
+		if !record(res) {
+			break
+		}
+	}
+	return out.String()
+}
+
+// ---- generator: blocks built on stored states, forks included
+var c03sKeyBytes = []byte{0x01, 0x10, 0x12, 0x1f, 0x20, 0xf0}
+
+func c03sGen(r *vu.RNG, n int, emit func(string)) {
+	for q := 0; q < n; q++ {
+		toks := []string{"state"}
+		nh := 1
+		stored := map[int]bool{}
+		kv := []map[string][]byte{{}}
+		pickOpen := func() int { // a handle not stored yet (stored ones are left alone)
+			var c []int
+			for i := 0; i < nh; i++ {
+				if !stored[i] {
+					c = append(c, i)
+				}
+			}
+			if len(c) == 0 {
+				return -1
+			}
+			return c[r.Intn(len(c))]
+		}
+		steps := 5 + r.Intn(14)
+		for s := 0; s < steps; s++ {
+			x := r.Intn(100)
+			switch {
+			case x < 20 && len(stored) > 0 && nh < 7: // a new block on top of a stored state
+				var c []int
+				for i := range stored {
+					c = append(c, i)
+				}
+				sort.Ints(c)
+				k := c[r.Intn(len(c))]
+				toks = append(toks, "T"+vu.X(uint64(k)))
+				m := map[string][]byte{}
+				for a, b := range kv[k] {
+					m[a] = b
+				}
+				kv = append(kv, m)
+				nh++
+			case x < 38:
+				i := pickOpen()
+				if i < 0 {
+					continue
+				}
+				toks = append(toks, "S"+vu.X(uint64(i)))
+				stored[i] = true
+			case x < 46:
+				i := pickOpen()
+				if i < 0 {
+					continue
+				}
+				toks = append(toks, "v"+vu.X(uint64(i))+":1")
+			default:
+				i := pickOpen()
+				if i < 0 {
+					continue
+				}
+				var keys []string
+				for a := range kv[i] {
+					keys = append(keys, a)
+				}
+				sort.Strings(keys)
+				switch y := r.Intn(10); {
+				case y < 2 && len(keys) > 0:
+					k := keys[r.Intn(len(keys))]
+					delete(kv[i], k)
+					toks = append(toks, "d"+vu.X(uint64(i))+":"+vu.Hex([]byte(k)))
+				case y < 5 && len(keys) > 0: // re-put the same value (after a version change this is the C03 defect)
+					k := keys[r.Intn(len(keys))]
+					toks = append(toks, "p"+vu.X(uint64(i))+":"+vu.Hex([]byte(k))+":"+vu.Hex(kv[i][k]))
+				default:
+					kl := r.Intn(3)
+					k := make([]byte, kl)
+					for z := range k {
+						k[z] = c03sKeyBytes[r.Intn(len(c03sKeyBytes))]
+					}
+					vl := []int{1, 31, 32, 33, 40, 40}[r.Intn(6)]
+					v := make([]byte, vl)
+					for z := range v {
+						v[z] = byte(0xd0 + r.Intn(2))
+					}
+					kv[i][string(k)] = v
+					toks = append(toks, "p"+vu.X(uint64(i))+":"+vu.Hex(k)+":"+vu.Hex(v))
+				}
+			}
+		}
+		emit(strings.Join(toks, " "))
+	}
+}
+
+// exhaustive small scope (thorough tier): after Put(0x12, 40 bytes) on handle 0, every history of
+// at most 4 further steps over at most 3 handles that respects the copy-on-write contract
+func c03Exhaustive(emit func(string)) {
+	a40 := strings.Repeat("b0", 40)
+	type hs struct{ frozen bool }
+	var rec func(toks []string, handles []hs, depth int)
+	rec = func(toks []string, handles []hs, depth int) {
+		if depth > 0 {
+			emit(strings.Join(toks, " "))
+		}
+		if depth == 4 {
+			return
+		}
+		for i, h := range handles {
+			x := vu.X(uint64(i))
+			var ops []string
+			if !h.frozen {
+				ops = append(ops, "p"+x+":12:"+a40, "p"+x+":12:01", "p"+x+":1234:"+a40, "d"+x+":12", "c"+x+":12")
+			}
+			ops = append(ops, "v"+x+":1", "w"+x)
+			for _, o := range ops {
+				rec(append(append([]string{}, toks...), o), handles, depth+1)
+			}
+			if len(handles) < 3 {
+				nh := append([]hs{}, handles...)
+				nh[i].frozen = true
+				nh = append(nh, hs{})
+				rec(append(append([]string{}, toks...), "s"+x), nh, depth+1)
+			}
+		}
+	}
+	rec([]string{"p0:12:" + a40}, []hs{{}}, 0)
+}
+
+func c03AllGen(r *vu.RNG, n int, emit func(string)) {
+	if vu.Thorough() {
+		c03Exhaustive(emit)
+	}
+	ns := n / 5
+	c03Gen(r.Fork(), n-ns, emit)
+	c03sGen(r.Fork(), ns, emit)
+}
+
+func c03AllRun(in string) string {
+	if strings.HasPrefix(in, "state") {
+		return c03sRun(in)
+	}
+	return c03Run(in)
+}
+
 func TestVerifC03(t *testing.T) {
-	vu.Run(t, "C03", 400, c03Gen, func(in string) string { return c03Run(in) })
+	c03sDB = NewInMemoryDB(t)
+	vu.Run(t, "C03", 1000, c03AllGen, c03AllRun)
 	_ = fmt.Sprint
 }
